@@ -16,6 +16,14 @@ pub enum HEvent {
         salt: u64,
         tag: String,
     },
+    /// an account appears in the ledger with given bytes (fabricated mint; lamports sent to an address)
+    Put {
+        key: Pubkey,
+        lamports: u64,
+        owner: Pubkey,
+        data: Vec<u8>,
+        tag: String,
+    },
     /// direct edit of account bytes (state fast-forward fault)
     Patch {
         key: Pubkey,
@@ -180,6 +188,22 @@ pub fn apply_event(
             }
             (Some(out), v)
         }
+        HEvent::Put {
+            key,
+            lamports,
+            owner,
+            data,
+            ..
+        } => {
+            let pre = ledger.clone();
+            if !ledger.exists(key) {
+                ledger.put(*key, rt::Account::new(*lamports, data.clone(), *owner));
+            }
+            for m in monitors.iter_mut() {
+                m.on_patch(idx, &pre, ledger, cov);
+            }
+            (None, Vec::new())
+        }
         HEvent::Patch {
             key,
             offset,
@@ -281,6 +305,13 @@ pub fn event_json(e: &HEvent) -> Value {
             "fail_cpi": fail_cpi.map(|(a, b)| json!([a, b])),
             "ixs": tx.ixs.iter().map(ix_json).collect::<Vec<_>>(),
         }),
+        HEvent::Put {
+            key,
+            lamports,
+            owner,
+            data,
+            tag,
+        } => json!({"type": "put", "tag": tag, "key": key_s(key), "lamports": lamports, "owner": key_s(owner), "data": hex(data)}),
         HEvent::Patch {
             key,
             offset,
@@ -304,6 +335,13 @@ pub fn json_event(v: &Value) -> Option<HEvent> {
                 )
             }),
             salt: v["salt"].as_u64().unwrap_or(0),
+            tag: v["tag"].as_str().unwrap_or("").to_string(),
+        }),
+        "put" => Some(HEvent::Put {
+            key: s_key(v["key"].as_str()?),
+            lamports: v["lamports"].as_u64()?,
+            owner: s_key(v["owner"].as_str()?),
+            data: unhex(v["data"].as_str()?),
             tag: v["tag"].as_str().unwrap_or("").to_string(),
         }),
         "patch" => Some(HEvent::Patch {
